@@ -460,6 +460,8 @@ func init() {
 		ndocs := argInt(args, "docs", 6)
 		nfaults := argInt(args, "faults", 14)
 		nomit := argInt(args, "omit", 0) // per valid document: variants omitting one required-with-default member
+		nvar := argInt(args, "variants", 0) // per rich valid document: variants omitting one optional member / null at one nullable member
+		tags := map[string]int{}
 		ndeep := argInt(args, "deep", 0) // fault documents whose fault lies in a struct below >= 2 container levels
 		formats := strings.Split(args["formats"], ",")
 		if args["formats"] == "" {
@@ -520,6 +522,16 @@ func init() {
 				}
 				if args["zerodefaults"] == "1" {
 					d = c08ZeroDefaults(d, tr)
+				}
+				if args["casetwins"] == "1" {
+					var n int
+					d, n = c08CaseTwins(d, tr)
+					tags["term.caseTwinMembers"] += n
+				}
+				if args["sharedunions"] == "1" {
+					var n int
+					d, n = c08SharedNullUnions(d, tr)
+					tags["term.sharedNullableUnionUses"] += n
 				}
 				if args["deepnest"] == "1" {
 					d = c08DeepNest(d, tr, i)
@@ -591,6 +603,17 @@ func init() {
 					}
 				}
 			}
+			for n := 0; n < ndocs && nvar > 0 && !k.fixed; n++ {
+				dg.rich = true
+				base := dg.validDoc()
+				dg.rich = false
+				k.docs = append(k.docs, c08Doc{"valid", "$", base, 0})
+				bi := len(k.docs)
+				for _, v := range c08ValidVariants(c.Defs, base, r, nvar, tags) {
+					v.base = bi
+					k.docs = append(k.docs, v)
+				}
+			}
 			for n := 0; n < nfaults && !k.fixed; n++ {
 				fd, ok := dg.faultDoc(nil)
 				if !ok {
@@ -633,15 +656,22 @@ func init() {
 				wantOK = false // the constrained field itself is gone (shrinking candidates)
 			}
 			verdict := c08Oracle(d.kind, want, wantOK, vcanon, viols, srep)
-			if d.base > 0 && (strings.HasPrefix(verdict, "FAIL strict-rejected") || strings.HasPrefix(verdict, "FAIL validate-abnormal")) {
+			if d.base > 0 && (strings.HasPrefix(verdict, "FAIL strict-rejected") || strings.HasPrefix(verdict, "FAIL validate-abnormal") || strings.HasPrefix(verdict, "FAIL validate-rejected-valid")) {
 				// attributable to the omission only if the document it was derived from is accepted
 				bs := si - (s.d - (d.base - 1))
-				if bs >= 0 && !strings.HasPrefix(replies[2*bs+1], "ok ") {
+				bv := "ok"
+				if bs >= 0 && strings.HasPrefix(verdict, "FAIL validate-") {
+					bv, _ = c08CanonValidate(replies[2*bs])
+				}
+				if bs >= 0 && (!strings.HasPrefix(replies[2*bs+1], "ok ") || bv != "ok") {
 					verdict = "ok base-document-rejected-too"
 				}
 			}
 			fmt.Fprintf(out, "D\t%s\t%s\t%s\t%s\t%s\t%s\t%s\t%s\t%s\t%s\n", s.k.c.ID, d.kind, d.path, shape,
 				d.doc.json(), d.doc.sexp(), vcanon, srep, verdict, site)
+		}
+		for _, t := range c08SortedKeys(tags) {
+			fmt.Fprintf(out, "T\t%s\t%d\n", t, tags[t])
 		}
 		for _, w := range lab.Warnings {
 			fmt.Fprintf(out, "W\t%s\n", labOneLine(w))
